@@ -192,3 +192,7 @@ func Bound(name string, def int) int {
 	}
 	return def
 }
+
+// AdvanceClock lets the (symbolic) clock move forward by 0..maxSeconds. The
+// engine's clock only moves here; natively the real clock runs by itself.
+func AdvanceClock(name string, maxSeconds int64) {}
